@@ -2085,3 +2085,55 @@ func sameVarValue(a, b ssa.Value) bool {
 	ca, cb := resolveCell(la.X), resolveCell(lb.X)
 	return ca != nil && ca == cb
 }
+
+func init() {
+	for _, pid := range []string{"C04", "C09", "C16"} {
+		pid := pid
+		p := Properties[pid]
+		p.Rules = append(p.Rules, Rule{pid + "/omitted-embedded-hides-promoted", func(c *Ctx) { ruleOmittedEmbedded(c, pid+"/omitted-embedded-hides-promoted") }})
+	}
+}
+
+// An embedded struct that the json tag names or omits (`json:"-"`) is one field for encoding/json: the fields Go
+// promotes from it are not fields of the outer struct. Inference skips them by remembering the index path of the
+// embedded field. That must happen also when the embedded field itself is omitted: the assignment of the path
+// may not be reached only where the tag parser says "not omitted".
+func ruleOmittedEmbedded(c *Ctx, rule string) {
+	m := c.inferModel(rule)
+	if m == nil {
+		return
+	}
+	n := 0
+	c.eachFam(m.fn, func(i ssa.Instruction) {
+		phi, ok := i.(*ssa.Phi)
+		if !ok {
+			return
+		}
+		sl, isSlice := phi.Type().Underlying().(*types.Slice)
+		if !isSlice || !isIntType(sl.Elem()) {
+			return
+		}
+		for k, e := range phi.Edges {
+			ld, ok := e.(*ssa.UnOp)
+			if !ok || ld.Op != token.MUL || !c.mentionsNamedField(ld, "Index", 3) {
+				continue
+			}
+			n++
+			_ = k
+			// (the load stands where the assignment stands)
+			var bad []string
+			for _, g := range controlGuards(ld) {
+				// (only a test made earlier in the same iteration: control dependences carried around the loop do not count)
+				if g.At.Parent() != ld.Parent() || !g.At.Block().Dominates(ld.Block()) {
+					continue
+				}
+				if mentionsStructFieldNamed(g.Cond, "omit", 4) && !g.Pol {
+					bad = append(bad, c.pos(g.At))
+				}
+			}
+			c.R.Check(len(bad) == 0, rule, fmt.Sprintf("%s:skip-path-assignment#%d", core.FuncName(phi.Parent()), n), c.pos(ld), "the path of an embedded field whose promoted fields are to be skipped is remembered whether or not the field itself is omitted",
+				fmt.Sprintf("the index path of the embedded field is remembered only where the tag parser does not omit the field (test at %v): for an embedded struct tagged `json:\"-\"` the promoted fields are then not skipped and become required properties that encoding/json never emits", bad))
+		}
+	})
+	c.R.Floor(rule, "assignments of an embedded field's index path", n, 1)
+}
